@@ -667,7 +667,12 @@ Definition run_closure (cb : nat) (r : reading) : M unit :=
   od <- of_opt (dget (w_closures s) cb) EUnmodelled ;;
   d <- of_opt (dget (b_descriptors s) (de_name (snd od))) EKeyError ;;
   ev <- compose_event d (dupdate [] r) [] ;;
-  emit ev.
+  emit ev ;;;
+  (* repair C05-c: monitor events are never replayed, the checkpoint snapshot of the stream's counter follows them
+     (self._sequence_counters_copy[name] = self._sequence_counters[name]; the counter exists: compose_event read it) *)
+  s' <- get ;;
+  c <- of_opt (dget (b_seq s') (de_name (snd od))) EKeyError ;;
+  modify (fun s => set_b_seq_copy (dset (b_seq_copy s) (de_name (snd od)) c) s).
 
 Definition mon_event (o : obj) (r : reading) : M unit :=
   s <- get ;;
